@@ -212,6 +212,12 @@ namespace GeographicLib {
       double b = dlon <= 90 ? std::fabs(s) : -std::fabs(s);
       return a + b;
     }
+    // ANG1: the longitude in degrees is handed to sin, and a radian result to AngNormalize
+    static double Units(double lon, double y, double x) {
+      double s = std::sin(lon);
+      double a = std::atan2(y, x);
+      return s + Math::AngNormalize(a);
+    }
     // CP1: the northing clause is a copy of the easting clause with one name left behind
     static double Pad(double easting, double northing, double scale) {
       double w = 0;
